@@ -28,15 +28,46 @@ theorem bnet_findDef_of_mem {n : BNet} (hnd : (n.defs.map (·.name)).Nodup) {d :
   simp only at this
   rw [this]
 
-theorem roundtrip_leaf_ports (o : Opts) (n : BNet) (t : String) (hw : WellNamed n) (hf : FragFull n t)
-    (hn : NetOKA n t) (hnm : NamesOK o n) (hbp : BBPlain n t) (hpm : n.PinMirror) (hdg : LatchSep n t)
-    (hbw : BBWide n t) (n' : BNet) (h : readB (composeText o n) = Except.ok n') :
-    ∀ k ∈ kidsFull n t, ∀ pn b,
-      (pn, b) ∈ allPins (n'.findDef k.1.model) ↔ (pn, b) ∈ allPins (n.findDef k.1.model) := by
+theorem bbDefs_user {n : BNet} {t : String} {d : DefD} (hd : d ∈ bbDefs n t) :
+    ∃ i ∈ n.insts, (i.typ = "EBLIF.subckt" ∨ i.typ = "EBLIF.gate" ∨ i.typ = "EBLIF.other") ∧ i.model = d.name := by
+  unfold bbDefs at hd
+  simp only [List.mem_filter, Bool.and_eq_true, decide_eq_true_eq, List.mem_map] at hd
+  obtain ⟨_, ⟨_, ⟨i, hi, hm⟩⟩, _⟩ := hd
+  simp only [List.mem_filter, Bool.and_eq_true, Bool.or_eq_true, decide_eq_true_eq] at hi
+  refine ⟨i, hi.1, ?_, hm⟩
+  rcases hi.2.1.2 with (h | h) | h
+  · exact Or.inl h
+  · exact Or.inr (Or.inl h)
+  · exact Or.inr (Or.inr h)
+
+theorem portsOf_bbmodels_other (m : String) (ds : List DefD) (hne : ∀ d ∈ ds, m ≠ d.name) :
+    ∀ {s s' : St}, elabModels s (ds.map bbModel) = Except.ok s' → portsOf s' m = portsOf s m := by
+  induction ds with
+  | nil => intro s s' h; cases h; rfl
+  | cons d r ih =>
+    intro s s' h
+    simp only [List.map_cons] at h
+    unfold elabModels at h
+    obtain ⟨s1, h1, h2⟩ := bind_ok h
+    rw [ih (fun x hx => hne x (by simp [hx])) h2, portsOf_other_bbmodel d m (hne d (by simp)) h1]
+
+/-- the states the second read goes through (header, children, `.conn` lines, black-box models) and
+    the port facts of the state after the children -/
+theorem second_read_chain (o : Opts) (n : BNet) (t : String) (hw : WellNamed n) (hf : FragFull n t)
+    (hn : NetOKA n t) (hnm : NamesOK o n) (hbp : BBPlain n t) (hdg : LatchSep n t)
+    (n' : BNet) (h : readB (composeText o n) = Except.ok n') :
+    ∃ sh sk sc sf : St,
+      (∀ x, x ≠ t → findDef sh x = none) ∧
+      elabStmts sh t ((kidsFull n t).map (stmtOfFull o n)) = Except.ok sk ∧
+      (∀ k ∈ kidsFull n t, ∀ q ∈ k.1.pins, ∃ p, findIn (portsOf sk k.1.model) q.1 = some p ∧ q.2 < p.width) ∧
+      (∀ m W, (∀ k ∈ kidsFull n t, k.1.model = m → ∀ q ∈ k.1.pins, q.2 < W q.1) → UBd sh m W → UBd sk m W) ∧
+      StdKids n sk ∧ StdL sk ∧
+      elabStmts sk t ((connPairs n (n.findDef t)).map (fun ab => Stmt.conn ab.1 ab.2)) = Except.ok sc ∧
+      sc.defs = sk.defs ∧ elabModels sc (bbPart o n t) = Except.ok sf ∧
+      ∀ m, (n'.findDef m).ports = portsOf sf m := by
   have ht : okWord t = true := hw.2.2.2.2 t hf.top
   have hn' := hn
   obtain ⟨hperm, hp, hnd, hcb, hcn, hk⟩ := hn'
-  obtain ⟨hdn, hpnd, hmir⟩ := hpm
   obtain ⟨_, hpn, _⟩ := findDef_ok hw ht
   have hc : ∀ c ∈ n.cables, plainName c.1.2 ∧ c.1.2 ≠ "unconn" ∧ c.1.2.toList ≠ [] := by
     intro c hcm
@@ -93,7 +124,7 @@ theorem roundtrip_leaf_ports (o : Opts) (n : BNet) (t : String) (hw : WellNamed 
       rw [this, ← List.map_map, List.zipIdx_map_fst]
     rw [h2] at h1
     simpa using h1.nodup_iff.mpr (hnm hwc)
-  obtain ⟨sk, hbk, lbk, ubk⟩ := body_ports o n t hw hc hk hkids hdg.2 (kidsFull n t) []
+  obtain ⟨sk, hbk, lbk, ubk, stdk, stdl⟩ := body_ports o n t hw hc hk hkids hdg.2 (kidsFull n t) []
     (fun k hk' => hperm.mem_iff.mp hk') hnames sh hlen0 (fun _ => by simp [hnames0]) dh hstd0
     (Or.inl (habs _ (fun e => hdg.1 e.symm)))
   obtain ⟨sc, hbc, _, dc, _⟩ := conn_stmts t (connPairs n (n.findDef t)) (connKeys n t (n.findDef t))
@@ -136,6 +167,94 @@ theorem roundtrip_leaf_ports (o : Opts) (n : BNet) (t : String) (hw : WellNamed 
     rw [c2]
     show (match (sf.defs.find? fun (d : DefD) => d.name = m) with | some d => d | none => ({ name := m } : DefD)).ports = _
     cases sf.defs.find? (fun (d : DefD) => d.name = m) <;> rfl
+  exact ⟨sh, sk, sc, sf, habs, hbk, lbk, ubk, stdk, stdl, hbc, dc, hsf, hfind⟩
+
+theorem roundtrip_leaf_ports (o : Opts) (n : BNet) (t : String) (hw : WellNamed n) (hf : FragFull n t)
+    (hn : NetOKA n t) (hnm : NamesOK o n) (hbp : BBPlain n t) (hpm : n.PinMirror) (hdg : LatchSep n t)
+    (hbw : BBWide n t) (n' : BNet) (h : readB (composeText o n) = Except.ok n') :
+    (∀ k ∈ kidsFull n t, ∀ pn b,
+      (pn, b) ∈ allPins (n'.findDef k.1.model) ↔ (pn, b) ∈ allPins (n.findDef k.1.model)) ∧
+    (∀ k ∈ kidsFull n t, k.1.typ = "EBLIF.names" →
+      (n'.findDef k.1.model).ports = stdNamesPorts (k.1.pins.length - 1)) ∧
+    (∀ k ∈ kidsFull n t, k.1.typ = "EBLIF.latch" →
+      ∃ a, a ≤ 5 ∧ (n'.findDef "generic-latch").ports = stdLatchPorts.take a) := by
+  have ht : okWord t = true := hw.2.2.2.2 t hf.top
+  have hn' := hn
+  obtain ⟨hperm, hp, hnd, hcb, hcn, hk⟩ := hn'
+  obtain ⟨hdn, hpnd, hmir⟩ := hpm
+  obtain ⟨sh, sk, sc, sf, habs, hbk, lbk, ubk, stdk, stdl, hbc, dc, hsf, hfind⟩ :=
+    second_read_chain o n t hw hf hn hnm hbp hdg n' h
+  -- ports of a definition no black-box block is written for, after the children
+  have hkeep : ∀ m, (∀ d ∈ bbDefs n t, m ≠ d.name) → portsOf sf m = portsOf sk m := by
+    intro m hm
+    have h1 : portsOf sc m = portsOf sk m := portsOf_of_defs dc m
+    rw [← h1]
+    unfold bbPart at hsf
+    split at hsf
+    · exact portsOf_bbmodels_other m (bbDefs n t) hm hsf
+    · cases hsf; rfl
+  refine ⟨?_, ?_, ?_⟩
+  rotate_left
+  · -- `.names` definitions
+    intro k hkk hkn
+    have hkz : k ∈ n.insts.zipIdx := hperm.mem_iff.mp hkk
+    have hki : k.1 ∈ n.insts := mem_zipIdx_fst hkz
+    have hmod := names_model n t hk k.1 hki hkn
+    have hsh := (hk k hkz).1
+    unfold KidShape at hsh
+    simp only [hkn, if_true] at hsh
+    have hq : ∃ q, q ∈ k.1.pins := by
+      cases hpins : k.1.pins with
+      | nil => have := hsh.1; rw [hpins] at this; simp at this
+      | cons q r => exact ⟨q, by simp⟩
+    obtain ⟨q, hq⟩ := hq
+    obtain ⟨p, hp', _⟩ := lbk k hkk q hq
+    have hne : portsOf sk k.1.model ≠ [] := by
+      intro e; rw [e] at hp'; simp [findIn] at hp'
+    have hstd := stdk k.1 hki hkn
+    rw [hfind, hkeep k.1.model (by
+      intro d hd e
+      obtain ⟨i, hi, hty, hmm⟩ := bbDefs_user hd
+      obtain ⟨idx, hidx⟩ := List.getElem?_of_mem hi
+      have hiz : (i, idx) ∈ n.insts.zipIdx := List.mem_zipIdx_iff_getElem?.mpr hidx
+      have hnn : i.typ ≠ "EBLIF.names" := by
+        rcases hty with h' | h' | h' <;> (rw [h']; decide)
+      exact (hk (i, idx) hiz).2.2.2.2 hnn k.1 hki hkn (hmm.trans e.symm))]
+    rcases hstd with habs' | ⟨_, hpp⟩
+    · rw [← hmod] at habs'
+      exfalso
+      apply hne
+      unfold portsOf; rw [habs']
+    · rw [hmod]; exact hpp
+  · -- `generic-latch`
+    intro k hkk hkl
+    have hkz : k ∈ n.insts.zipIdx := hperm.mem_iff.mp hkk
+    have hsh := (hk k hkz).1
+    have hkn : ¬ k.1.typ = "EBLIF.names" := by rw [hkl]; decide
+    unfold KidShape at hsh
+    simp only [hkn, hkl, if_false, if_true] at hsh
+    have hq : ∃ q, q ∈ k.1.pins := by
+      cases hpins : k.1.pins with
+      | nil => have := hsh.2.1; rw [hpins] at this; simp at this
+      | cons q r => exact ⟨q, by simp⟩
+    obtain ⟨q, hq⟩ := hq
+    obtain ⟨p, hp', _⟩ := lbk k hkk q hq
+    rw [hsh.1] at hp'
+    have hne : portsOf sk "generic-latch" ≠ [] := by
+      intro e; rw [e] at hp'; simp [findIn] at hp'
+    rw [hfind, hkeep "generic-latch" (by
+      intro d hd e
+      obtain ⟨i, hi, hty, hmm⟩ := bbDefs_user hd
+      obtain ⟨idx, hidx⟩ := List.getElem?_of_mem hi
+      have hiz : (i, idx) ∈ n.insts.zipIdx := List.mem_zipIdx_iff_getElem?.mpr hidx
+      have hnl : i.typ ≠ "EBLIF.latch" := by
+        rcases hty with h' | h' | h' <;> (rw [h']; decide)
+      exact hdg.2 (i, idx) hiz hnl (hmm.trans e.symm))]
+    rcases stdl with habs' | ⟨_, a, ha, hpp⟩
+    · exfalso
+      apply hne
+      unfold portsOf; rw [habs']
+    · exact ⟨a, ha, hpp⟩
   -- one child
   intro k hkk pn b
   have hkz : k ∈ n.insts.zipIdx := hperm.mem_iff.mp hkk
